@@ -215,6 +215,9 @@ impl RawUnprocessedJSONArray {
                     token = ["".to_string(), char.to_string()].join(SYMBOL.empty_string);
                     let mut number_of_open_square_brackets = 1;
                     let mut number_of_closed_square_brackets = 0;
+                    // brackets inside of a string value are not part of the structure
+                    let mut is_inside_string = false;
+                    let mut is_previous_char_backslash = false;
 
                     let mut read_nested_array = true;
                     while read_nested_array {
@@ -231,13 +234,18 @@ impl RawUnprocessedJSONArray {
                         bytes_read = bytes_read + length as i128;
                         let char = String::from_utf8(char_buffer).unwrap().chars().last().unwrap();
 
-                        let is_open_square_bracket = char == '[';
+                        if char == '\"' && !is_previous_char_backslash {
+                            is_inside_string = !is_inside_string;
+                        }
+                        is_previous_char_backslash = char == '\\' && !is_previous_char_backslash;
+
+                        let is_open_square_bracket = char == '[' && !is_inside_string;
                         if is_open_square_bracket {
                             number_of_open_square_brackets = number_of_open_square_brackets + 1;
                         }
 
 
-                        let is_close_square_bracket = char == ']';
+                        let is_close_square_bracket = char == ']' && !is_inside_string;
                         if is_close_square_bracket {
                             number_of_closed_square_brackets = number_of_closed_square_brackets + 1;
                         }
@@ -258,6 +266,9 @@ impl RawUnprocessedJSONArray {
                     token = ["".to_string(), char.to_string()].join(SYMBOL.empty_string);
                     let mut number_of_open_curly_braces = 1;
                     let mut number_of_closed_curly_braces = 0;
+                    // brackets inside of a string value are not part of the structure
+                    let mut is_inside_string = false;
+                    let mut is_previous_char_backslash = false;
 
                     let mut read_nested_object = true;
                     while read_nested_object {
@@ -274,13 +285,18 @@ impl RawUnprocessedJSONArray {
                         bytes_read = bytes_read + length as i128;
                         let char = String::from_utf8(char_buffer).unwrap().chars().last().unwrap();
 
-                        let is_open_curly_brace = char == '{';
+                        if char == '\"' && !is_previous_char_backslash {
+                            is_inside_string = !is_inside_string;
+                        }
+                        is_previous_char_backslash = char == '\\' && !is_previous_char_backslash;
+
+                        let is_open_curly_brace = char == '{' && !is_inside_string;
                         if is_open_curly_brace {
                             number_of_open_curly_braces = number_of_open_curly_braces + 1;
                         }
 
 
-                        let is_close_curly_brace = char == '}';
+                        let is_close_curly_brace = char == '}' && !is_inside_string;
                         if is_close_curly_brace {
                             number_of_closed_curly_braces = number_of_closed_curly_braces + 1;
                         }
